@@ -499,19 +499,49 @@ func modelFieldsSetDefault(c *mctx, s mState, entries []defaultEntry) []alt {
 // Whether the entry point type (a ref kept beside the entry point's *name*)
 // is one of "every ref" is left open: both are accepted.
 func modelReplaceReference(c *mctx, s mState, from, to objRef) []alt {
+	hits := 0
 	repl := func(t *ast.Type) {
 		if t.Kind == ast.KindRef && t.Ref != nil && t.Ref.ReferredPkg == from.Pkg && strings.EqualFold(t.Ref.ReferredType, from.Name) {
 			c.matched = true
+			hits++
 			if t.Ref.ReferredType != from.Name {
 				c.inexact = true
 			}
 			t.Ref.ReferredPkg, t.Ref.ReferredType = to.Pkg, to.Name
 		}
 	}
+	// a matched reference is a target even when `to` spells what it already
+	// says (its trail may grow): the object and the field holding it are marked
+	objects := func(st mState) {
+		st.eachObject(func(_ *mSchema, o *mObj) {
+			before := hits
+			if o.O.Type.Kind == ast.KindStruct && o.O.Type.Struct != nil {
+				for i := range o.O.Type.Struct.Fields {
+					fb := hits
+					walkType(&o.O.Type.Struct.Fields[i].Type, repl)
+					if hits > fb {
+						touchField(&o.O.Type.Struct.Fields[i])
+					}
+				}
+			} else {
+				walkType(&o.O.Type, repl)
+			}
+			if hits > before {
+				touchObj(o)
+			}
+		})
+	}
 	a := s.clone()
-	a.walkAll(repl)
+	objects(a)
+	for _, p := range a {
+		before := hits
+		walkType(&p.EntryPointType, repl)
+		if hits > before {
+			p.EntryPointType.PassesTrail = append(p.EntryPointType.PassesTrail, touchMark)
+		}
+	}
 	b := s.clone()
-	b.eachObject(func(_ *mSchema, o *mObj) { walkType(&o.O.Type, repl) })
+	objects(b)
 	if canonState(a) == canonState(b) {
 		return one(a)
 	}
